@@ -4,7 +4,8 @@ E1 over programs x inputs.  Dispatch: hierarchy VA <- VB <- VC, VD(VA, Mixin), V
 {visit_VA, visit_VB, visit_VC, visit_VD, visit_Mixin, visit_ASTNode} as the visitor's method set x strict; expected
 target computed from the class's MRO.  validate=True: every (method name, annotation) pair, annotation as object
 and as string.  Transformation: every tree <= N nodes over leaf / sub-leaf / parent(optional single + tuple) /
-sub-parent x all 6^4 rule sets (per class: no method, keep, rewrite property, replace by fresh node, remove, raise)
+sub-parent x all 8^4 rule sets (per class: no method, keep, rewrite property, replace by fresh node, remove, raise, return an
+equal-but-distinct copy, rewrite a property that is excluded from comparison)
 x strict; the result is compared with a reference rewriting that tracks identity (same object / new node / removed
 / raises); the input tree is snapshotted before and compared after, also when the visitor raises.
 """
@@ -24,7 +25,7 @@ from ..desc import OPT, PROP, VAR, C, F, Universe
 PID = "C09"
 RULE = (
     "dispatch: 64 method subsets x strict x 5 node classes (+ validate: all name/annotation pairs). transformation: all trees "
-    "with <= N nodes (lexicographic) x 1296 rule sets x strict.  states = distinct (tree, rule set, strict) cases; transitions = "
+    "with <= N nodes (lexicographic) x 4096 rule sets x strict.  states = distinct (tree, rule set, strict) cases; transitions = "
     "transform / visit executions compared with the reference; non-trivial = transformation cases whose reference result "
     "contains both an unchanged original subtree (returned as the same object) and at least one new node"
 )
@@ -67,6 +68,7 @@ class VE(ASTNode):
 @dataclass(frozen=True)
 class TL(ASTNode):
     v: int = 0
+    note: int = dataclasses.field(default=0, compare=False)  # not part of the content: nodes differing only here are ==
 
 
 @dataclass(frozen=True)
@@ -79,6 +81,7 @@ class TP(ASTNode):
     one: ASTNode | None = None
     items: tuple[ASTNode, ...] = ()
     tag: int = 0
+    note: int = dataclasses.field(default=0, compare=False)
 
 
 @dataclass(frozen=True)
@@ -91,6 +94,7 @@ class TW(ASTNode):  # two tuple child fields
     first: tuple[ASTNode, ...] = ()
     second: tuple[ASTNode, ...] = ()
     tag: int = 0
+    note: int = dataclasses.field(default=0, compare=False)
 
 
 U = Universe("c09", [
@@ -103,7 +107,9 @@ U = Universe("c09", [
 U2 = Universe("c09-shaped", U.classes and [U.classes[c] for c in ("TL", "TS", "TP", "TQ")] + [
     C("TW", TW, [F("first", VAR, maxlen=3), F("second", VAR, maxlen=3), F("tag", PROP, alphabet=(0,))])])
 TCLS = ["TL", "TS", "TP", "TQ"]
-RULES = ["none", "keep", "rewrite", "replace", "remove", "raise"]
+# "copy" returns a distinct node that is == to the one it stands for, "annotate" rewrites a property that does not take
+# part in comparison: both are replacements (new objects that must be substituted and make every ancestor new)
+RULES = ["none", "keep", "rewrite", "replace", "remove", "raise", "copy", "annotate"]
 MRO = {"TL": ["TL"], "TS": ["TS", "TL"], "TP": ["TP"], "TQ": ["TQ", "TP"], "TW": ["TW"]}
 
 
@@ -126,6 +132,13 @@ def make_visitor(rules: dict, strict: bool):
             return rw
         if rule == "replace":
             return lambda self, node: TL(99)
+        if rule == "copy":
+            return lambda self, node: dataclasses.replace(self.generic_visit(node))
+        if rule == "annotate":
+            def an(self, node):
+                new = self.generic_visit(node)
+                return dataclasses.replace(new, note=new.note + 1)
+            return an
         if rule == "remove":
             return lambda self, node: None
         if rule == "raise":
@@ -190,6 +203,10 @@ def ref_transform(d, path, rules, strict):
         key = "v" if "v" in props else "tag"
         props[key] += 1
         return ("new", cname, props, kids)
+    if rule == "annotate":
+        return ("new", cname, dict(props, note=1), kids)
+    if rule == "copy":
+        return ("new", cname, dict(props, note=0), kids)
     if not changed:
         return ("same", path)
     return ("new", cname, props, kids)
